@@ -289,7 +289,12 @@ def objective_reductions(idx: ProgramIndex, rep: Report):
                         continue
                     n += 1
                     has_dim = bool(c.args) or any(k.arg in ("dim", "axis") for k in c.keywords)
-                    inst = "%s:%s.%s[%s]" % (cls.module.name, cls.qualname, name, norm(c)[:60])
+                    import copy as _copy
+                    anon = _copy.deepcopy(c)
+                    for x in ast.walk(anon):
+                        if isinstance(x, ast.Name) and x.id not in ("self", "torch"):
+                            x.id = "_"  # local names are not part of the instance key
+                    inst = "%s:%s.%s[%s]" % (cls.module.name, cls.qualname, name, norm(anon)[:60])
                     rep.add("C08-5", inst, "%s:%d" % (fi.module.relpath, c.lineno), has_dim,
                             "reduces named axes" if has_dim else
                             "`%s` reduces over every axis, including the batch axes: each element of a batched objective receives the total over all batch elements instead of its own term" % " ".join(src(c).split())[:70], {})
